@@ -1,2 +1,8 @@
 #!/bin/sh
-exit 0
+# Builds the verifier from sources on disk (offline).
+set -e
+cd "$(dirname "$0")/govc"
+export GOFLAGS=-mod=mod GOPROXY=off GOSUMDB=off GOTOOLCHAIN=local
+export PATH=/opt/veriftools/go1.26.8/bin:$PATH
+mkdir -p ../bin
+go build -o ../bin/govc .
